@@ -1321,7 +1321,13 @@ fn scan_anchor_soundness<'v, 'c>(
         {
             unresolvable.push(path.clone());
         }
-        Some(AnchorMark::Aliases(_)) => {}
+        // A surviving alias is written as `*name` and nothing below it is:
+        // a declaration inside its (copied) subtree is never emitted, so it
+        // must not be recorded as one — otherwise a later alias of that
+        // inner anchor is kept although its `&name` no longer appears
+        // anywhere (the original declaration can have been dropped by a
+        // kind-changing write).
+        Some(AnchorMark::Aliases(_)) => return,
         None => {}
     }
     match value {
